@@ -77,6 +77,16 @@ StoreIsRule(o) == LET id == ConvStruct(t, v) IN
 ApiStructIsRule == (phase = "done" /\ t.k = "struct") => StoreIsRule(out.api)
 FfiStructIsRule == (phase = "done" /\ t.k = "struct") => StoreIsRule(out.ffi)
 
+\* non-vacuity, evaluated by TLC in the same run: every broken variant of section 5 / 7 differs
+\* from the rule somewhere in a small universe (the check also runs them as separate
+\* configurations in the thorough tier)
+SmallU == {PyI(n) : n \in ((0 - 20)..20) \cup {255, 256}} \cup {[k |-> "pybool", b |-> TRUE]}
+ASSUME \E ty \in Types, x \in SmallU : ApiInt(ty, x, "api_uge") # IdealInt(ty, x)
+ASSUME \E ty \in Types, x \in SmallU : FfiInt(ty, x, "ffi_zeroext") # IdealInt(ty, x)
+ASSUME \E ty \in Types, x \in SmallU : FfiInt(ty, x, "bool_range") # IdealInt(ty, x)
+ASSUME \E x \in {y \in StructVals : y.k = "list"} :
+          LET id == ConvStruct(SA, x) o == StructStore(Garbage(SizeT(SA)), SA, x, FALSE) IN id.ok /\ o.b # ImgOf(SA, id.c)
+
 \* the digit library against TLC's own integers (the values of the window fit natively)
 ValOf(x) == IF x.neg THEN 0 - NatOf(x.mag) ELSE NatOf(x.mag)
 RECURSIVE Pow(_, _)
